@@ -82,9 +82,10 @@ def classify_dynamic(ctx, data, find, pkg, name, mode, out):
     if out.get("out") != "exc":
         return False
     where = out.get("where")
-    if out["cls"] == "NameError" and out.get("name") and where:
+    if (out["cls"] == "NameError" or out.get("nameerror")) and out.get("name") and where:
         mod = il.mod_of_path(data, where[0])
-        find.add("GlobalsResolve:%s:%s" % (mod, out["name"]),
+        inv = "GlobalsResolve" if out["cls"] == "NameError" else "LocalsResolve"
+        find.add("%s:%s:%s" % (inv, mod, out["name"]),
                  observed=["%s.%s [%s]: %s -> NameError: %s at %s:%s in %s" % (
                      pkg, name, mode, out["code"], out["msg"], where[0], where[1], where[2])])
         return True
